@@ -61,6 +61,9 @@ pub struct ArrSwarm {
     pub weights: [u64; 9],
     /// now and then a model that never releases anything
     pub allow_never: bool,
+    /// now and then a user-defined model (only `number_arrivals` implemented: the trait's
+    /// default brute-force `steps_iter` runs), alone, jittered or inside a superposition
+    pub allow_user: bool,
 }
 
 impl ArrSwarm {
@@ -78,12 +81,14 @@ impl ArrSwarm {
         ArrSwarm {
             weights: w,
             allow_never: true,
+            allow_user: false,
         }
     }
     pub fn exact_only() -> ArrSwarm {
         ArrSwarm {
             weights: [20, 40, 0, 30, 0, 0, 0, 0, 0],
             allow_never: false,
+            allow_user: false,
         }
     }
 }
@@ -177,6 +182,16 @@ fn superposition(rng: &mut Rng, period: u64) -> ArrDesc {
 pub fn random_arrival(rng: &mut Rng, period: u64, sw: &ArrSwarm) -> ArrDesc {
     if sw.allow_never && rng.chance(1, 60) {
         return ArrDesc::Never;
+    }
+    if sw.allow_user && rng.chance(1, 30) {
+        let k = rng.range(1, 3);
+        let user = ArrDesc::User(period * k, k);
+        return match rng.below(5) {
+            0 | 1 => user,
+            2 => ArrDesc::Jittered(Box::new(user), rng.range(0, period)),
+            3 => ArrDesc::Vec(vec![user, ArrDesc::Periodic(period * rng.range(2, 5))]),
+            _ => ArrDesc::Rc(Box::new(user)),
+        };
     }
     let kind = rng.weighted(&sw.weights);
     match kind {
@@ -286,7 +301,11 @@ impl TaskSetSwarm {
             prio_ties: rng.chance(3, 10),
             all_equal_prio: rng.chance(1, 25),
             identical_tasks: rng.chance(1, 40),
-            arr: ArrSwarm::random(rng),
+            arr: {
+                let mut a = ArrSwarm::random(rng);
+                a.allow_user = true;
+                a
+            },
             limit: *rng.pick(&[60u64, 200, 600, 1500, 3000, 100_000]),
         }
     }
